@@ -86,6 +86,7 @@ class EngineCheck(PropertyCheck):
         "the abstract engine is tied to lib/Core/BuildEngine.cpp by replaying the real engine's event traces (trace inclusion), not by translation; internal queue order is not modelled",
     ]
     trusted_base = ["harness/vengine.cpp (DSL rules/tasks, observing BuildDB, hook-driven schedules)",
+                    "Model/EngineImpl.lean: hand transliteration of BuildEngineImpl (queues, scan records, cycle search, cancellation), required to predict every deterministic-mode trace of the real engine exactly (stream engineimpl)",
                     "vlib/engine.py generators and python oracles (independent DSL interpreter)",
                     "extract/x_enginefp.py (structural fingerprint of the anchored engine lines)"]
 
@@ -170,8 +171,41 @@ class EngineCheck(PropertyCheck):
                 res.distinct_nontrivial += 1
             if len(res.samples) < 3:
                 res.samples.append({"ops": c.harness_lines()[:14], "first_trace": next((x for x in h if x.startswith("B ")), "")[:400]})
+        self.run_impl_model(ctx, res, [c for _, c, _ in good], [h for _, _, h in good])
         if self.cross_schedule:
             self.run_cross(ctx, res, [c for _, c, _ in good], [h for _, _, h in good])
+
+    def run_impl_model(self, ctx, res, cases, houts):
+        """the concrete engine model (Model/EngineImpl.lean, a transliteration of BuildEngineImpl with its
+        queues) must PREDICT the real engine's output line for line in the deterministic (hook-driven)
+        mode; builds with free-running threads or a forked crash are outside it (`unsupported`)"""
+        from .. import engine_impl as EI
+        lines = []
+        for c in cases:
+            lines += c.harness_lines()
+        rc, out, err = EI.run_lines(EI.model_cmd() + ["engineimpl"], lines)
+        st = res.distribution.setdefault("engine_impl_model", {"builds_predicted_exactly": 0, "other_lines_equal": 0, "outside_model": 0, "disagreements": 0})
+        if rc != 0 or len(out) != sum(len(h) for h in houts):
+            res.mismatches.append({"stream": "engineimpl", "input": "model driver exit %s, %d lines" % (rc, len(out)), "model": err[-300:]})
+            return
+        pos = 0
+        for c, h in zip(cases, houts):
+            m = out[pos:pos + len(h)]
+            pos += len(h)
+            for j, (a, b) in enumerate(zip(m, h)):
+                if a == "unsupported":
+                    st["outside_model"] += 1
+                    continue
+                if a == b:
+                    st["builds_predicted_exactly" if b.startswith("B ") else "other_lines_equal"] += 1
+                    continue
+                st["disagreements"] += 1
+                if len([x for x in res.mismatches if x.get("stream") == "engineimpl"]) < 10:
+                    i, me, ie = EI.first_difference(a, b)
+                    C.log("concrete model disagrees with the engine at event %d: model `%s`, engine `%s`" % (i, me, ie))
+                    res.mismatches.append({"stream": "engineimpl", "input": {"ops": c.harness_lines(), "output_line": j, "first_difference_index": i},
+                                           "model": me + "   | " + a[:600], "impl": ie + "   | " + b[:600]})
+                break
 
     def run_cross(self, ctx, res, cases, houts):
         """C06(b): the same histories under different completion schedules / threads give the same
